@@ -75,14 +75,16 @@ impl DeadCodeEliminator {
     // statement in tail position: only its children are optimised
     fn eliminate_in_tail_stmt(&mut self, stmt: &mut TypedStmt) {
         match &mut stmt.kind {
+            // the branches are in tail position too: an `else if` arm keeps its shape (the
+            // chain yields null; unwrapping `else if true { 5 }` would make it yield 5)
             TypedStmtKind::If {
                 then_branch,
                 else_branch,
                 ..
             } => {
-                self.eliminate_in_stmt(then_branch);
+                self.eliminate_in_tail_stmt(then_branch);
                 if let Some(else_b) = else_branch {
-                    self.eliminate_in_stmt(else_b);
+                    self.eliminate_in_tail_stmt(else_b);
                 }
             }
             TypedStmtKind::While { body, .. } => self.eliminate_in_stmt(body),
